@@ -262,7 +262,7 @@ CLAIMED = {
                 "_gc_prefix vs the model; oracle: real histories at 12 location spellings (incl. d, data, m, metadata, symlink, S3 prefixes) "
                 "with aged files and open transactions, deleted set vs independently computed reachability over ALL retained snapshots."
                 " Marker naming (model Marker): queued_files_all_covered, separated_names_register_each, digest_markers_register_both (for any digest telling the paths apart), basename_markers_skip_second (witness), library_marker_names_unchanged; ties marker.name / marker.register against _marker_path_for and the markers a real append_files batch writes. Live transactions holding pre-built files (same base name in two partition directories) across collections."
-                " transactions_do_not_share_markers (per-transaction salted digests), path_only_markers_are_shared (witness). Histories with non-canonical spellings of pre-built paths and with two live transactions holding one pre-built file.",
+                " spellings_name_one_file / raw_spelling_misses_listed_file (references compared by the file they name; tie gc.ref vs _referenced_path); transactions_do_not_share_markers (per-transaction salted digests), path_only_markers_are_shared (witness). Histories with non-canonical spellings of pre-built paths and with two live transactions holding one pre-built file.",
         "design_ref": "§6 C05",
         "note": "The collector's reachability walk and marker loading are exercised end to end here and modelled step-wise under C07/C06; "
                 "the for-all-histories store invariant (history_wf) is not proved in Lean yet — covered by the history oracle.",
